@@ -1,15 +1,21 @@
 package world
 
 import (
+	"crypto/sha256"
+	"encoding/binary"
 	"encoding/hex"
 	"fmt"
 	"math/big"
+	"regexp"
 	"sort"
 	"strings"
 
 	"cosmossdk.io/math"
+	storetypes "cosmossdk.io/store/types"
+	"github.com/circlefin/noble-fiattokenfactory/x/blockibc"
 	sdk "github.com/cosmos/cosmos-sdk/types"
 	authtypes "github.com/cosmos/cosmos-sdk/x/auth/types"
+	"github.com/cosmos/ibc-go/v8/modules/apps/transfer"
 	transfertypes "github.com/cosmos/ibc-go/v8/modules/apps/transfer/types"
 	clienttypes "github.com/cosmos/ibc-go/v8/modules/core/02-client/types"
 	channeltypes "github.com/cosmos/ibc-go/v8/modules/core/04-channel/types"
@@ -57,7 +63,7 @@ func (p Packet) Data() []byte {
 
 // Msg is an admin message of the orbiter module.
 type Msg struct {
-	Kind   string   // PauseProtocol UnpauseProtocol PauseCrossChains UnpauseCrossChains PauseAction UnpauseAction UpdateParams ReplaceDepositForBurn
+	Kind   string // PauseProtocol UnpauseProtocol PauseCrossChains UnpauseCrossChains PauseAction UnpauseAction UpdateParams ReplaceDepositForBurn
 	Signer string
 	ID     string   // protocol / action id (by name)
 	IDs    []string // counterparties
@@ -155,6 +161,12 @@ type Op struct {
 	Note    string
 	// Twin: also run the packet on a branch where the orbiter account has been emptied (C11)
 	Twin bool
+	// Ref: also run the packet on the stack WITHOUT the orbiter middleware (blockibc ∘ transfer) on another
+	// branch of the same state and compare acknowledgement, events and every store (C07)
+	Ref bool
+	// Callback: which IBC callback to drive ("" = OnRecvPacket, "ack-ok", "ack-err", "timeout": the other
+	// callbacks, differential only)
+	Callback string
 }
 
 // ---------------------------------------------------------------------------------------------
@@ -169,12 +181,14 @@ type Acct struct {
 
 // W is one booted chain with both stacks.
 type W struct {
-	S      *sim.Sim
-	In     *Inst
-	Wired  porttypes.IBCModule
-	Accts  []Acct
-	Denoms []string
-	parser *adapterctrl.JSONParser
+	S     *sim.Sim
+	In    *Inst
+	Wired porttypes.IBCModule
+	// Reference is the transfer stack without the orbiter middleware, on the same keepers
+	Reference porttypes.IBCModule
+	Accts     []Acct
+	Denoms    []string
+	parser    *adapterctrl.JSONParser
 	// InstOnly: packets run on the instrumented instance only (it has controllers the wired app lacks)
 	InstOnly bool
 }
@@ -188,7 +202,8 @@ func New(s *sim.Sim, extra ...ExtraAction) (*W, error) {
 	if err != nil {
 		return nil, err
 	}
-	return &W{S: s, In: in, Wired: s.Stack(), parser: parser}, nil
+	ref := blockibc.NewIBCMiddleware(transfer.NewIBCModule(s.App.TransferKeeper), s.App.FTFKeeper)
+	return &W{S: s, In: in, Wired: s.Stack(), Reference: ref, parser: parser}, nil
 }
 
 func ModAddr(name string) sdk.AccAddress { return authtypes.NewModuleAddress(name) }
@@ -428,22 +443,25 @@ func classify(p Packet, obs *RecvObs, tr []Call) {
 
 // OpObs is the observation of one operation.
 type OpObs struct {
-	Op      Op
-	Kind    string
-	Recv    RecvObs // the committed execution
-	Wired   RecvObs // the application as wired (when both were run)
-	Trace   []Call
-	Natural []bool
+	Op       Op
+	Kind     string
+	Recv     RecvObs // the committed execution
+	Wired    RecvObs // the application as wired (when both were run)
+	Trace    []Call
+	Natural  []bool
 	AppPanic bool
-	Entered bool // recv: the orbiter middleware was reached (blockibc in front of it did not refuse the packet)
-	MsgOK   bool
-	MsgErr  string
-	MsgPan  string
-	QueryV  cq.V
-	QueryE  bool
-	After   Snapshot
-	Before  Snapshot
-	Twin *TwinObs
+	Entered  bool // recv: the orbiter middleware was reached (blockibc in front of it did not refuse the packet)
+	MsgOK    bool
+	MsgErr   string
+	MsgPan   string
+	QueryV   cq.V
+	QueryE   bool
+	After    Snapshot
+	Before   Snapshot
+	Twin     *TwinObs
+	// RefDiff: how the stack with the middleware differs from the stack without it ("" = identical)
+	RefDiff string
+	RefRan  bool
 	// WiringDisagrees: the wired stack and the instrumented instance behaved differently (no fault injected)
 	WiringDisagrees string
 }
@@ -473,6 +491,97 @@ func (w *W) twin(ctx sdk.Context, op Op) *TwinObs {
 	return &TwinObs{Class: obs.Class, Ack: obs.Ack, Trace: rec.Trace, StateAfter: obs.After.State}
 }
 
+// Digest hashes every KV store of the context (all modules): two branches with equal digests hold the same state.
+func (w *W) Digest(ctx sdk.Context) string {
+	h := sha256.New()
+	keys := w.S.App.GetStoreKeys()
+	sort.Slice(keys, func(i, j int) bool { return keys[i].Name() < keys[j].Name() })
+	for _, k := range keys {
+		kv, ok := k.(*storetypes.KVStoreKey)
+		if !ok {
+			continue
+		}
+		h.Write([]byte("store:" + kv.Name()))
+		it := ctx.KVStore(kv).Iterator(nil, nil)
+		for ; it.Valid(); it.Next() {
+			var l [8]byte
+			binary.BigEndian.PutUint64(l[:], uint64(len(it.Key())))
+			h.Write(l[:])
+			h.Write(it.Key())
+			binary.BigEndian.PutUint64(l[:], uint64(len(it.Value())))
+			h.Write(l[:])
+			h.Write(it.Value())
+		}
+		it.Close()
+	}
+	return hex.EncodeToString(h.Sum(nil))
+}
+
+var ptrRe = regexp.MustCompile(`\{\d{9,}\}`)
+
+func eventsString(ctx sdk.Context) string {
+	var b strings.Builder
+	for _, e := range ctx.EventManager().Events() {
+		b.WriteString(e.Type)
+		for _, a := range e.Attributes {
+			fmt.Fprintf(&b, " %s=%s", a.Key, a.Value)
+		}
+		b.WriteString("\n")
+	}
+	return b.String()
+}
+
+// refCompare runs one IBC callback on the wired stack and on the stack without the orbiter middleware,
+// on two branches of ctx, and describes the first difference.
+func (w *W) refCompare(ctx sdk.Context, op Op) string {
+	run := func(stack porttypes.IBCModule) (ack string, pan string, events string, digest string) {
+		cctx, _ := ctx.CacheContext()
+		cctx = cctx.WithEventManager(sdk.NewEventManager())
+		func() {
+			defer func() {
+				if r := recover(); r != nil {
+					pan = fmt.Sprint(r)
+				}
+			}()
+			pkt := w.channelPacket(op.Pkt)
+			rel := sdk.AccAddress(make([]byte, 20))
+			switch op.Callback {
+			case "":
+				a := stack.OnRecvPacket(cctx, pkt, rel)
+				if a != nil {
+					ack = fmt.Sprintf("%v|%s", a.Success(), a.Acknowledgement())
+				}
+			case "ack-ok":
+				err := stack.OnAcknowledgementPacket(cctx, pkt, channeltypes.NewResultAcknowledgement([]byte{1}).Acknowledgement(), rel)
+				ack = fmt.Sprint(err)
+			case "ack-err":
+				err := stack.OnAcknowledgementPacket(cctx, pkt, channeltypes.NewErrorAcknowledgement(fmt.Errorf("x")).Acknowledgement(), rel)
+				ack = fmt.Sprint(err)
+			case "timeout":
+				err := stack.OnTimeoutPacket(cctx, pkt, rel)
+				ack = fmt.Sprint(err)
+			}
+		}()
+		return ack, pan, eventsString(cctx), w.Digest(cctx)
+	}
+	a1, p1, e1, d1 := run(w.Wired)
+	a2, p2, e2, d2 := run(w.Reference)
+	// ibc-go formats a math.Int by value in one of its own error texts, which prints the address of the
+	// big.Int inside it ("got {824675008896}"): not the orbiter's, canonicalised away
+	e1, e2 = ptrRe.ReplaceAllString(e1, "{ptr}"), ptrRe.ReplaceAllString(e2, "{ptr}")
+	switch {
+	case p1 != p2:
+		return fmt.Sprintf("panic with the middleware %q, without %q", p1, p2)
+	case a1 != a2:
+		return fmt.Sprintf("acknowledgement / result with the middleware %q, without %q", a1, a2)
+	case e1 != e2:
+		return fmt.Sprintf("events differ: with the middleware [%s], without [%s]", e1, e2)
+	case d1 != d2:
+		return "state after the call differs (store digest)"
+	}
+	return ""
+}
+
 // RunOp executes one operation on ctx (which is advanced in place when the operation commits).
 func (w *W) RunOp(ctx sdk.Context, op Op) (o OpObs) {
 	o.Op, o.Kind = op, op.Kind
@@ -480,6 +589,15 @@ func (w *W) RunOp(ctx sdk.Context, op Op) (o OpObs) {
 	switch op.Kind {
 	case "recv":
 		faulty := len(op.Plan) > 0 || op.Lie != 0 || w.InstOnly
+		if op.Ref && (!IsOrbiterFlow(op.Pkt) || op.Callback != "") {
+			o.RefDiff, o.RefRan = w.refCompare(ctx, op), true
+		}
+		if op.Callback != "" {
+			// only the differential run: the other callbacks are not modelled (they are the embedded module's)
+			o.Kind = "callback"
+			o.After = w.Snap(ctx)
+			return
+		}
 		if op.Twin {
 			o.Twin = w.twin(ctx, op)
 		}
@@ -589,6 +707,8 @@ func (o OpObs) V() cq.V {
 			return cq.VL(cq.VZ(1))
 		}
 		return cq.VL(cq.VZ(0), o.QueryV)
+	case "callback":
+		return cq.VL(bigsV(o.After.Bals), bigsV(o.After.Supply))
 	}
 	return cq.VL()
 }
@@ -847,6 +967,8 @@ func OpCoq(o OpObs, memoTerm string) string {
 		return fmt.Sprintf("ODeposit %s %s %s", cq.Str(Hex(o.Op.To)), cq.Str(o.Op.Denom), cq.Z(o.Op.Amount))
 	case "query":
 		return "OQuery " + o.Op.Q.Coq()
+	case "callback":
+		return "OCallback"
 	}
 	return "?"
 }
